@@ -3,6 +3,8 @@ import Driver.Backoff
 import Driver.Wire
 import Driver.Codec
 import Driver.Topic
+import Driver.Fanout
+import Driver.PubSub
 
 /-! `drv`: one case per input line, one result per output line (see /verif/DESIGN.md, section 3.2). -/
 
@@ -13,6 +15,8 @@ def step (line : String) : String :=
   | "wdec" :: rest => Driver.Wire.run "wdec" rest
   | "benc" :: rest => Driver.Wire.run "benc" rest
   | "bdec" :: rest => Driver.Wire.run "bdec" rest
+  | "fan" :: rest => Driver.Fanout.run rest
+  | "ps" :: rest => Driver.PubSub.run rest
   | "tn" :: rest => Driver.Topic.run "tn" rest
   | "tc" :: rest => Driver.Topic.run "tc" rest
   | op :: rest =>
